@@ -597,3 +597,96 @@ def run_paren_sink(prog, tier, repo):
     res.analysed['decider'] = dec.name
     res.analysed['plain_printers'] = sorted(prog.bodies[i].name for i in plain)
     return [res]
+
+
+# ---------------------------------------------------------------------------------------------------------------------
+# LINE-COMMENT-BREAK (C09): a `//` comment runs to the end of its line, so whatever the printer emits after it must start
+# on a new line *in every layout* - a soft line may be flattened into a space, and the next comment or token then becomes
+# part of the comment's text. Rule: every line-comment document is placed into a document sequence immediately followed by
+# the constant hard line break (vec!/array literal neighbour, or the next push onto the same vector on every path).
+
+def run_line_comment_break(prog, tier, repo):
+    from ..cfg import cfg_of, single_def
+    res = RuleResult('LINE-COMMENT-BREAK', 'C09: every line-comment document is immediately followed by a hard line break in the '
+                     'sequence it is emitted into (a soft break can be flattened and the following text is swallowed by the comment)')
+    n = 0
+
+    def is_hard(b, op):
+        if op[0] not in ('c', 'm') or op[1].proj:
+            return False
+        sd = single_def(b, op[1].local)
+        while sd and sd[1] != 'term' and sd[2][0] == 'use' and sd[2][1][0] in ('c', 'm') and not sd[2][1][1].proj:
+            sd = single_def(b, sd[2][1][1].local)
+        return bool(sd and sd[1] != 'term' and sd[2][0] == 'agg' and sd[2][1][0] == 'adt' and sd[2][1][3] == 'LineHard')
+    for b in prog.bodies.values():
+        if b.crate != 'samlang_printer' or '::source_printer::' not in b.name + '::':
+            continue
+        for bi, bl in enumerate(b.blocks):
+            t = bl.term
+            if bl.cleanup or t[0] != 'call' or not (callee(t)[1] or '').endswith('Document::line_comment') or t[4] is None or t[4].proj:
+                continue
+            n += 1
+            key = f'line-comment:{b.name}#{n}'
+            R = t[4].local
+            # follow whole-local moves of R
+            holders = {R}
+            changed = True
+            while changed:
+                changed = False
+                for bl2 in b.blocks:
+                    for st in bl2.stmts:
+                        if st[0] == 'a' and not st[1].proj and st[2][0] == 'use' and st[2][1][0] in ('c', 'm') \
+                                and not st[2][1][1].proj and st[2][1][1].local in holders and st[1].local not in holders:
+                            holders.add(st[1].local)
+                            changed = True
+            ok = False
+            why = 'the comment document does not reach a sequence literal or a push'
+            cfg = cfg_of(b)
+            for bj, bl2 in enumerate(b.blocks):
+                if bl2.cleanup:
+                    continue
+                for st in bl2.stmts:
+                    if st[0] == 'a' and st[2][0] == 'agg' and st[2][1][0] == 'array':
+                        ops = st[2][2]
+                        for k, o in enumerate(ops):
+                            if o[0] in ('c', 'm') and not o[1].proj and o[1].local in holders:
+                                if k + 1 < len(ops) and is_hard(b, ops[k + 1]):
+                                    ok = True
+                                else:
+                                    why = 'its right neighbour in the sequence literal is not the constant hard line break'
+                t2 = bl2.term
+                if t2[0] == 'call' and (callee(t2)[1] or '').endswith('::push') and len(t2[3]) == 2 \
+                        and t2[3][1][0] in ('c', 'm') and not t2[3][1][1].proj and t2[3][1][1].local in holders:
+                    vec = operand_root(b, t2[3][0])[0]
+                    # the next push / append / extend on the same vector, along every path, must push the hard break
+                    frontier = [t2[5]] if t2[5] is not None else []
+                    seen = set()
+                    good = bool(frontier)
+                    while frontier and good:
+                        x = frontier.pop()
+                        if x in seen:
+                            continue
+                        seen.add(x)
+                        tx = b.blocks[x].term
+                        if tx[0] == 'call' and tx[3] and operand_root(b, tx[3][0])[0] == vec \
+                                and (callee(tx)[1] or '').split('::')[-1] in ('push', 'append', 'extend', 'insert', 'extend_from_slice'):
+                            if (callee(tx)[1] or '').endswith('::push') and len(tx[3]) == 2 and is_hard(b, tx[3][1]):
+                                continue
+                            good = False
+                            break
+                        if tx[0] == 'ret':
+                            good = False
+                            break
+                        frontier.extend(cfg.succ[x])
+                    if good:
+                        ok = True
+                    else:
+                        why = 'the next element pushed onto the same vector is not, on every path, the constant hard line break'
+            if ok:
+                res.ok(key, b.loc(t[7]), 'followed by Document::LineHard in the emitted sequence')
+            else:
+                res.violation(key, b.loc(t[7]), f'{b.name}: a line-comment document is emitted but {why}: in a layout where the soft break '
+                              f'is flattened the following comment or code is printed on the same line and becomes part of the `//` '
+                              f'comment')
+    res.floor('line-comment documents', n, 1)
+    return [res]
